@@ -45,7 +45,11 @@ impl FullnameInfo {
         let rebound = self
             .all_namespaces
             .iter()
-            .any(|(p, n)| *p == xot.xml_prefix() && *n != xot.xml_namespace());
+            // (xmlns:xml="" binds nothing: the xml prefix cannot lose its
+            // binding)
+            .any(|(p, n)| {
+                *p == xot.xml_prefix() && *n != xot.xml_namespace() && *n != xot.no_namespace()
+            });
         if rebound {
             None
         } else {
